@@ -9,6 +9,7 @@ CONSTANTS
   RDelims <- NoRDelims
   MaxParts = 2
   MaxOps = 1
+  MaxRetry = 1
   ContentSel = {1, 9}
   ProfileSel = {1, 2, 4}
   UseJson = FALSE
@@ -24,6 +25,7 @@ CONSTANTS
 INVARIANT ParseOfEncodeIsForm
 INVARIANT LimitsExactAtThreshold
 INVARIANT ContentExact
+INVARIANT SizeFailureSticks
 INVARIANT CorruptionIsErrorOrWellDefined
 PROPERTY MCBufferLimitExact
 PROPERTY MCProgress
